@@ -752,10 +752,16 @@ def _round(I, x, nd=None):
 
 
 def _str(I, x=""):
-    from .interp import FStr
+    from .interp import FStr, Frame
 
     if isinstance(x, str):
         return x
+    if isinstance(x, PObj) and not isinstance(x.cls, str):
+        m = x.cls.find_method("__str__")
+        if m is not None:
+            return I.call_function(m, [x], {}, None, Frame(m.module, None))
+    if isinstance(x, PObj) and x.clsname == "Path":
+        return x.fields["text"]
     if isinstance(x, bool) or x is None:
         return str(x)
     if isinstance(x, int):
@@ -1104,6 +1110,16 @@ def ext_attr(I, mod, name, node):
             return PBuiltin(name, NUMPY[name])
     if base == "numpy.linalg" and name == "norm":
         return PBuiltin("norm", _np_norm)
+    if base == "pathlib" and name == "Path":
+        def mkpath(I, x):
+            import pathlib
+
+            if not isinstance(x, str):
+                raise Unsupported("pathlib.Path of a symbolic string")
+            pp = pathlib.PurePosixPath(x)
+            return PObj("Path", {"name": pp.name, "stem": pp.stem, "suffix": pp.suffix, "parent": str(pp.parent),
+                                 "text": x})
+        return PBuiltin("Path", mkpath)
     if base == "pprint" and name in ("pformat",):
         from .interp import FStr
 
